@@ -988,3 +988,24 @@ Proof.
   intros k p G. destruct (A k p G) as [(d & Hd & Hr)|R]; [left | right; exact R].
   fold s. replace (t_expiry p) with d by lia. exact Hd.
 Qed.
+
+(* ---------- a refresh processed while an expiry callback is past its clock read ----------
+   Whatever the history, whichever callback, and whatever that callback read from the clock: when
+   a template for k is accepted and then callback c completes, k is stored with the lifetime the
+   refresh gave it. This is the schedule "the deadline was reached, the callback is running, the
+   exporter's periodic refresh arrives before the callback is done" (harness action X). It holds
+   because callback completion is ONE step that re-checks expiryTime under the lock; an
+   implementation that checks in one critical section and deletes in another does not have it. *)
+Lemma refresh_during_callback_lemma : forall ttl tk acts k g c, 0 <= tk -> 2 * tk < ttl ->
+  let t0 := g_now (grun_tick tk acts) in
+  exists p, get_tpl k (run_tick ttl tk (acts ++ [ATemplate k g; ACbEnd c])) = Some p /\
+            t_expiry p = t0 + ttl /\
+            probe (run_tick ttl tk (acts ++ [ATemplate k g; ACbEnd c])) k = Some (nrec (t_tag p)).
+Proof.
+  intros ttl tk acts k g c Htk Httl t0.
+  apply no_early_drop_lemma; [exact Htk | |].
+  - unfold last_accept_tick, grun_tick. rewrite fold_left_app. cbn [fold_left gstep g_ok].
+    rewrite klookup_upd, key_eqb_refl. reflexivity.
+  - unfold grun_tick. rewrite fold_left_app. cbn [fold_left gstep g_now].
+    fold (grun_tick tk acts). fold t0. lia.
+Qed.
